@@ -225,6 +225,18 @@ def job_corr(j):
                 arrs[kind] = {'T': [float(t) for t in arr], 'v': [float(x) for x in out.ravel()]}
             except Exception as e:
                 arrs[kind] = {'exc': exc_name(e), 'msg': str(e)[:100]}
+    # array-like arguments with a member outside the valid range: refused like a scalar would be
+    rg_ = rng_of(obj)
+    if rg_ and inside:
+        for kind, arr in (('outside-array', np.array([inside[0], rg_[1] + 25.0])), ('outside-list', [rg_[0] - 10.0, inside[0]]),
+                          ('outside-0d', np.array(rg_[1] + 1.0))):
+            try:
+                with warnings.catch_warnings(record=True):
+                    warnings.simplefilter('always')
+                    out = np.asarray(obj.get_CpoR(arr), dtype=float)
+                arrs[kind] = {'T': np.asarray(arr, dtype=float).ravel().tolist(), 'v': [float(x) for x in out.ravel()], 'outside': True}
+            except Exception as e:
+                arrs[kind] = {'exc': exc_name(e), 'msg': str(e)[:100], 'outside': True}
     res['cp_arrays'] = arrs
     if j.get('pairs'):
         from scipy.integrate import quad
@@ -302,6 +314,16 @@ def job_update_seq(j):
             continue
         before = snap(other)
         r = {}
+        # ask the object for dimensional values BEFORE it is changed (whatever it remembers must not survive the change)
+        warmT = [cur.T_ref, 400.0]
+        for T in warmT:
+            for nm, u in (('get_S', 'J/mol/K'), ('get_G', 'kJ/mol'), ('get_H', 'kJ/mol'), ('get_Cp', 'J/mol/K')):
+                try:
+                    with warnings.catch_warnings(record=True):
+                        warnings.simplefilter('always')
+                        getattr(cur, nm)(T, u)
+                except Exception:
+                    pass
         with warnings.catch_warnings(record=True):
             warnings.simplefilter('always')
             try:
@@ -326,6 +348,10 @@ def job_update_seq(j):
                 fresh = mk_inc({'H': None if stt['H'] is None else stt['H']['v'], 'S': None if stt['S'] is None else stt['S']['v'],
                                 'Ts': [t for t, _ in stt['tab']], 'Cps': [v['v'] for _, v in stt['tab']], 'T_ref': stt['T_ref'], 'range': rg})
                 r['self_vals'] = {'T': pts, 'cur': eval_props(cur, pts, ('cp', 'h', 's')), 'fresh': eval_props(fresh, pts, ('cp', 'h', 's'))}
+                dimT = [T for T in warmT if (not rg or rg[0] <= T <= rg[1])]
+                r['self_dim'] = {'T': dimT,
+                                 'cur': {nm: [call(getattr(cur, nm), T, u) for T in dimT] for nm, u in (('get_S', 'J/mol/K'), ('get_G', 'kJ/mol'), ('get_H', 'kJ/mol'))},
+                                 'fresh': {nm: [call(getattr(fresh, nm), T, u) for T in dimT] for nm, u in (('get_S', 'J/mol/K'), ('get_G', 'kJ/mol'), ('get_H', 'kJ/mol'))}}
         except Exception as e:
             r['self_vals'] = {'exc': exc_name(e)}
         out.append(r)
